@@ -22,7 +22,7 @@ def fresh(t):
   them at run time ('%s:%d' % (host, port), str(endpoint))."""
   from scales.varz import Source
   return Source(*[None if x is None else (x + '#')[:-1] for x in t])
-AMOUNTS = [1, 2]
+AMOUNTS = [0, 1, 2]
 
 _V = None
 
